@@ -892,7 +892,14 @@ impl<'a> GeneratorState<'a> {
                                 self.asm(LDY, &sub_output, pos, false)?;
                                 self.flags = FlagsState::Y;
                                 self.saved_y = true;
-                                Ok(ExprType::AbsoluteY(variable.into()))
+                                if high_byte && v.var_type == VariableType::CharPtr && v.signed {
+                                    self.generate_sign_extend(
+                                        ExprType::AbsoluteY(variable.into()),
+                                        pos,
+                                    )
+                                } else {
+                                    Ok(ExprType::AbsoluteY(variable.into()))
+                                }
                             } else {
                                 Err(self
                                     .compiler_state
@@ -914,7 +921,14 @@ impl<'a> GeneratorState<'a> {
                                 self.asm(LDY, &sub_output, pos, false)?;
                                 self.flags = FlagsState::Y;
                                 self.saved_y = true;
-                                Ok(ExprType::AbsoluteY(variable.into()))
+                                if high_byte && v.var_type == VariableType::CharPtr && v.signed {
+                                    self.generate_sign_extend(
+                                        ExprType::AbsoluteY(variable.into()),
+                                        pos,
+                                    )
+                                } else {
+                                    Ok(ExprType::AbsoluteY(variable.into()))
+                                }
                             } else {
                                 Err(self
                                     .compiler_state
